@@ -125,6 +125,13 @@ def check_shipped(ctx, case):
     real = real_scheme(L)
     corr = set(n for n, _ in ref.desc) | set(t for k, v in ref.remaps.items() for _, t in v if k in set(n for n, _ in ref.desc))
     res, want = compare(ctx, real.GetDescriptors, ref, smi, L, corr_names=corr)
+    # the same molecule written in another atom order goes through the same scheme object right afterwards
+    if res == 'ok' and not molgen.has_fused_aromatic(smi):
+        alt = [s2 for k, s2 in molgen.spellings(smi, 2, sum(map(ord, smi))) if k in ('renumbered', 'rooted') and s2 != smi]
+        if alt:
+            ctx.count()
+            ctx.event('second-spelling-checked')
+            compare(ctx, real.GetDescriptors, ref, alt[-1], L + ' (second spelling of %s)' % smi, corr_names=corr)
     f, heavy = features(smi, want)
     failure = isinstance(want, tuple)
     has_corr = (not failure) and any(k in corr for k in want)
@@ -174,6 +181,12 @@ def check_any(ctx, case):
         check_synthetic(ctx, case)
 
 
+def synthetic_strategy(tier):
+    from props.C02_synth import scheme_case
+    return scheme_case()
+
+
 FAMILIES = [
     Family('shipped-schemes', check_any, strategy=lambda tier: shipped_case(), n=(1400, 30000)),
+    Family('synthetic-schemes', check_any, strategy=synthetic_strategy, n=(400, 8000)),
 ]
